@@ -46,6 +46,27 @@ Theorem C16_open_any : forall ck evs,
 Proof. exact open_any. Qed.
 Print Assumptions C16_open_any.
 
+(** 2d. Atomicity of a call relative to the state the running machine showed when the call started
+    ([open_state]: index and contents as Lookup sees them): after a crash at ANY point of the call the reopened
+    machine reports and shows exactly that state, or exactly what the completed call makes of it.  For
+    Update: all entries of the call in their order (a key written several times keeps the last value)
+    together with the new index lastApplied + gap + |b| - or nothing of the call. *)
+Theorem C16_call_atomic : forall ck evs o k L0,
+  open_state (run ck evs sys0) = Some L0 ->
+  exists L y', (L = L0 \/ L = fst (spec_op o (L0, true))) /\
+    do_event ck (EvOp OOpen) (run ck (evs ++ [EvCrash o k]) sys0) = (y', ROk (fst L)) /\
+    open_state y' = Some L.
+Proof. exact call_atomic. Qed.
+Print Assumptions C16_call_atomic.
+
+Theorem C16_update_atomic : forall ck evs gap b k i m,
+  open_state (run ck evs sys0) = Some (i, m) ->
+  exists L y', (L = (i, m) \/ L = (i + gap + nlen b, apply_batch b m)) /\
+    do_event ck (EvOp OOpen) (run ck (evs ++ [EvCrash (OUpdate gap b) k]) sys0) = (y', ROk (fst L)) /\
+    open_state y' = Some L.
+Proof. intros ck evs gap b k i m H. exact (call_atomic ck evs (OUpdate gap b) k (i, m) H). Qed.
+Print Assumptions C16_update_atomic.
+
 (** 2c. No call panics, after any history ("db dir unexpectedly deleted", "corrupted content"). *)
 Theorem C16_no_panic : forall ck evs o, snd (do_event ck (EvOp o) (run ck evs sys0)) <> RPanic.
 Proof. exact no_panic. Qed.
